@@ -19,6 +19,20 @@
 (* strictly smaller step (possibly below dt_min, written 0 when it is below *)
 (* one tick).                                                               *)
 (*                                                                         *)
+(* Deviation from DESIGN 3.4: instead of a finite set of rational Factors    *)
+(* the environment picks the next step size directly from StepVals; the     *)
+(* numeric factor (PI constants, facmin/facmax clamps, ratio memory) is     *)
+(* mechanism and deliberately not constrained by C14.                        *)
+(*                                                                         *)
+(* Configurations (written by harness/loop.py, see checks/c12..c14.py):     *)
+(*   fixed   : all layouts, GridSteps/OutputForm/ChunkEq/Tiling, Emit        *)
+(*   pair    : PairMode, OutputInvariance                                    *)
+(*   restart : RestartMode = "grid", ChunkEq; "any" must refute ChunkEq      *)
+(*   adaptive: FairSpec, safety + Terminates (KeepHist = FALSE);             *)
+(*             generation with histories, MaxTrials, Emit                    *)
+(*   defects : Bugs = {"none", ...}, INVARIANT Detect,                       *)
+(*             ACTION_CONSTRAINT DetectAct                                   *)
+(*                                                                         *)
 (* cfg.bug seeds one design defect (chosen from the constant Bugs); every   *)
 (* invariant below is shown to bite: with Bugs # {"none"} the invariant     *)
 (* Detect / the action constraint DetectAct print which property each       *)
@@ -74,7 +88,6 @@ RECURSIVE SetToSeq(_)
 SetToSeq(S) == IF S = {} THEN <<>>
                ELSE LET m == CHOOSE x \in S : \A y \in S : x <= y IN <<m>> \o SetToSeq(S \ {m})
 SeqToSet(s) == {s[i] : i \in 1..Len(s)}
-Interior(ts) == SeqToSet(ts) \ {ts[1], ts[Len(ts)]}
 H(s, x) == IF KeepHist THEN Append(s, x) ELSE s
 
 (* ---- terms ---- *)
